@@ -146,13 +146,21 @@ VALUE: /[0-9]{1,3}/
     g!("lazy_until", Lark, "prod", r##"start: head "tail" /[0-9]+/
 head[lazy]: /[a-z ]*;/
 "##),
-    g!("lazy_vs_greedy", Lark, "prod str", r##"start: BODY | stopped "!"
+    g!("lazy_vs_greedy", Lark, "prod str lazyg", r##"start: BODY | stopped "!"
 BODY: /[a-z ;]*/
 stopped[lazy]: /[a-z ]*;/
 "##),
-    g!("lazy_vs_greedy_str", Lark, "prod str", r##"start: "\"" (TXT | cut "]") "\""
+    g!("lazy_vs_greedy_str", Lark, "prod str lazyg", r##"start: "\"" (TXT | cut "]") "\""
 TXT: /[^"\\\x00-\x1F\x7F]*/
 cut[lazy]: /[^"\\\x00-\x1F\x7F]*\[/
+"##),
+    g!("lazy_vs_greedy_any", Lark, "prod str lazyg", r##"start: TXT | stopped "!" /[0-9]/
+TXT: /[^"\\\x00-\x1F\x7F]*/
+stopped[lazy]: /[^"\\\x00-\x1F\x7F]*;/
+"##),
+    g!("lazy_vs_greedy_words", Lark, "prod str lazyg", r##"start: WORDS | upto "=" /[0-9]+/
+WORDS: /[a-zA-Z0-9_ =]*/
+upto[lazy]: /[a-zA-Z0-9_ ]*=/
 "##),
     g!("tool_call_lazy", Lark, "prod", r##"start: ( f_foo | f_bar )* f_end
 f_end: TEXT
